@@ -35,9 +35,14 @@ int main (void) {
 			int alldone = 1, any = 0;
 			uint32_t b;
 			for (j = 0; j < VF_NSCHED; j++) { alldone &= (vf_pc[j] < 0); any |= vf_enabled (j); }
+#ifndef VF_NO_DEADLOCK_CHECK
 			VF_ASSERT_ (alldone || any, "deadlock: every unfinished thread is blocked for ever (lost wake-up)", r * 100 + t);
+#endif
 			b = vf_nondet_u32 ();       /* 0: the thread is not scheduled in this slot; k: it runs until visible point k (or blocks / ends) */
 			VF_ASSUME (b <= 0xffff);
+#ifdef VF_NATIVE
+			if (getenv ("VF_AUTOSKIP") && vf_pc[t] >= 0 && !vf_enabled (t)) { b = 0; }   /* smoke tests: random schedules skip blocked threads */
+#endif
 			if (b > 0 && vf_pc[t] >= 0) {
 				VF_ASSUME (vf_enabled (t));
 				vf_cur = t; vf_stop = (uint16_t) b; vf_first = 1;
@@ -51,7 +56,9 @@ int main (void) {
 	{
 		int alldone = 1, any = 0;
 		for (j = 0; j < VF_NSCHED; j++) { alldone &= (vf_pc[j] < 0); any |= vf_enabled (j); }
+#ifndef VF_NO_DEADLOCK_CHECK
 		VF_ASSERT_ (alldone || any, "deadlock: every unfinished thread is blocked for ever (lost wake-up)", 9999);
+#endif
 #if VF_NFINAL
 		if (alldone) { vf_run_to_completion (VF_NSCHED + VF_NINIT); }
 #endif
